@@ -5,7 +5,7 @@ from .eng_exec import tla_bytes
 
 
 def dim(text):
-    return "[t |-> %s, v |-> %d]" % (tla_bytes(text), int(text))
+    return "[t |-> %s, v |-> \"%d\"]" % (tla_bytes(text), int(text))     # value as decimal text (TLC integers are 32-bit)
 
 
 def spec(*ds):
@@ -69,7 +69,8 @@ def run(chk, tier, seed):
             num("-.5"), num("7."), nrange("+.25e1", "-.75"), num("2.E1"), nrange("-1.e-1", "+3.E+2")]      # sign directly before the point; a bare trailing point; a bare point before the exponent
     chans = [spec("1"), spec("-2"), spec("+3"), spec("12"), spec("1", "2"), spec("3", "-4"), spec("1", "2", "3"),
              rng(["1"], ["3"]), rng(["1", "1"], ["2", "3"]), rng(["1", "2", "3"], ["4", "5", "6"]),
-             path("'", "p"), path('"', "a,b"), path("'", "x:y!1")]
+             path("'", "p"), path('"', "a,b"), path("'", "x:y!1"), path("'", "d\x7fA"), path('"', "\x01~ "),
+             spec("-9223372036854775808", "9223372036854775807"), rng(["-9223372036854775808"], ["-9223372036854775807"])]
     mixed = [rng(["1"], ["2", "3"]), rng(["1", "2"], ["3"]), rng(["1", "2", "3"], ["4", "5"])]
     run_one(chk, "numeric", False, nums, [], 5 if th else 3)
     run_one(chk, "channel", True, chans, mixed, 4 if th else 3)
